@@ -37,11 +37,16 @@ Fixpoint mem (a : string) (l : list string) : bool :=
   match l with [] => false | b :: r => String.eqb b a || mem a r end.
 
 (* kf: attribute contents; kcomp: truth value of self.compressed; kpriv: truth value of self.is_private;
-   khd: the object is an HDKey *)
-Record kobj := { kf : fmap; kcomp : bool; kpriv : bool; khd : bool }.
-Definition setf (k : kobj) a v := {| kf := upd (kf k) a v; kcomp := kcomp k; kpriv := kpriv k; khd := khd k |}.
-Definition set_comp (k : kobj) c := {| kf := kf k; kcomp := c; kpriv := kpriv k; khd := khd k |}.
-Definition set_priv (k : kobj) c := {| kf := kf k; kcomp := kcomp k; kpriv := c; khd := khd k |}.
+   khd: the object is an HDKey; kwc: the VALUE stored in self._wif_compressed (None, or the compressed flag the
+   stored WIF was made with).  The only non-None value the code ever assigns to _wif_compressed is
+   self.compressed, so an assignment of a populated value to that attribute records the current flag. *)
+Record kobj := { kf : fmap; kcomp : bool; kpriv : bool; khd : bool; kwc : option bool }.
+Definition setf (k : kobj) a v :=
+  {| kf := upd (kf k) a v; kcomp := kcomp k; kpriv := kpriv k; khd := khd k;
+     kwc := if String.eqb a "_wif_compressed"
+            then (match v with VPub | VSec => Some (kcomp k) | _ => None end) else kwc k |}.
+Definition set_comp (k : kobj) c := {| kf := kf k; kcomp := c; kpriv := kpriv k; khd := khd k; kwc := kwc k |}.
+Definition set_priv (k : kobj) c := {| kf := kf k; kcomp := kcomp k; kpriv := c; khd := khd k; kwc := kwc k |}.
 
 (* ------------------------------------------------------------------ the little language *)
 Inductive expr :=
@@ -51,7 +56,8 @@ Inductive expr :=
 | EDeclass (srcs : list string)
 | ETop.
 
-Inductive cond := CSet (a : string) | CBlank (a : string) | CComp | CPriv | CHd.
+(* CWifStale: self._wif_compressed != self.compressed *)
+Inductive cond := CSet (a : string) | CBlank (a : string) | CComp | CPriv | CHd | CWifStale.
 
 Inductive prog :=
 | Done
@@ -90,6 +96,7 @@ Definition evalc (c : cond) (k : kobj) : bool :=
   | CComp => kcomp k
   | CPriv => kpriv k
   | CHd => khd k
+  | CWifStale => match kwc k with Some b => negb (Bool.eqb b (kcomp k)) | None => true end
   end.
 
 (* result: final state and whether the method returned (true) or raised (false); a raise keeps the
@@ -108,8 +115,8 @@ Fixpoint exec (p : prog) (k : kobj) : kobj * bool :=
 
 (* ------------------------------------------------------------------ fields and their classification *)
 Definition key_fields : list string :=
-  [ "_address_obj"; "_hash160"; "_public_uncompressed_byte"; "_public_uncompressed_hex"; "_wif"; "_wif_prefix";
-    "_x"; "_y"; "compressed"; "is_private"; "key_format"; "network"; "private_byte"; "private_hex";
+  [ "_address_obj"; "_hash160"; "_public_uncompressed_byte"; "_public_uncompressed_hex"; "_wif"; "_wif_compressed";
+    "_wif_prefix"; "_x"; "_y"; "compressed"; "is_private"; "key_format"; "network"; "private_byte"; "private_hex";
     "public_byte"; "public_compressed_byte"; "public_compressed_hex"; "public_hex"; "secret";
     "x_bytes"; "x_hex"; "y_bytes"; "y_hex" ].
 Definition hd_only_fields : list string :=
@@ -146,7 +153,7 @@ Definition all_pub (l : list string) : list (string * fval) := map (fun a => (a,
 Definition key_init_none : list string :=
   [ "public_hex"; "_public_uncompressed_hex"; "public_compressed_hex"; "public_byte"; "_public_uncompressed_byte";
     "public_compressed_byte"; "private_byte"; "private_hex"; "_x"; "_y"; "x_hex"; "y_hex"; "secret"; "_hash160";
-    "_address_obj"; "_wif"; "_wif_prefix" ].
+    "_address_obj"; "_wif"; "_wif_prefix"; "_wif_compressed" ].
 Definition key_init_meta : list string := [ "compressed"; "key_format"; "is_private"; "network" ].
 Definition pub_all : list string :=
   [ "_x"; "_y"; "x_hex"; "y_hex"; "public_compressed_hex"; "_public_uncompressed_hex"; "public_hex";
@@ -170,7 +177,7 @@ Definition init (hd : bool) (kd : kkind) : kobj :=
   {| kf := upds empty (all_none key_init_none ++ all_pub key_init_meta ++ kind_fields kd
                        ++ (if hd then all_pub ["script_type"; "encoding"; "witness_type"; "multisig"; "chain"; "depth";
                                                "parent_fingerprint"; "child_index"; "key_type"] else []));
-     kcomp := kind_comp kd; kpriv := kind_priv kd; khd := hd |}.
+     kcomp := kind_comp kd; kpriv := kind_priv kd; khd := hd; kwc := None |}.
 
 (* ------------------------------------------------------------------ Key / HDKey: methods *)
 Definition p_fill_x : prog :=
@@ -199,13 +206,20 @@ Definition p_address : prog :=          (* address() with default arguments *)
      (Asg "_address_obj" (EFrom ["public_byte"; "_public_uncompressed_byte"; "network"]) Done).
 Definition p_address_unc : prog :=      (* Key.address_uncompressed() *)
   p_unc_byte ;; Comp false (Asg "_address_obj" (EFrom ["_public_uncompressed_byte"; "network"]) Done).
+(* Key.wif() / HDKey.wif_key():
+     if self._wif_compressed != self.compressed: self._wif = None        (before the secret is looked at)
+     if not self.secret: raise
+     ... self._wif = ...; self._wif_prefix = versionbyte; self._wif_compressed = self.compressed
+   (when the stored WIF is returned without recomputing, the three attributes already hold exactly that) *)
+Definition p_wif_stale : prog := If CWifStale (Asg "_wif" ENone Done) Done Done.
 Definition p_wif_body : prog :=
-  Asg "_wif" (EFrom ["secret"; "compressed"; "network"]) (Asg "_wif_prefix" EPub Done).
-Definition p_wif : prog := If (CSet "secret") p_wif_body Raise Done.      (* Key.wif() / HDKey.wif_key() *)
+  Asg "_wif" (EFrom ["secret"; "compressed"; "network"])
+      (Asg "_wif_prefix" EPub (Asg "_wif_compressed" (EFrom ["compressed"]) Done)).
+Definition p_wif : prog := p_wif_stale ;; If (CSet "secret") p_wif_body Raise Done.
 Definition p_export_fills : prog := p_unc_hex ;; p_hash160 ;; p_address ;; p_point.
 Definition p_as_dict (incl : bool) : prog :=
   (if incl then If CHd Done p_wif Done else Done) ;; p_export_fills.
-Definition p_info : prog := If (CSet "secret") p_wif_body Done p_export_fills.
+Definition p_info : prog := If (CSet "secret") p_wif Done p_export_fills.
 Definition p_encrypt : prog := p_address ;; If (CSet "private_hex") Done Raise Done.
 
 (* public(): interpretation of the regenerated assignment list (target, (guard, rhs)) *)
@@ -432,7 +446,7 @@ Definition wk_init (w : wkind) : kobj :=
            | WkAddressOnly => [("key_public", VNone); ("key_private", VNone); ("wif", VNone); ("_dbkey", VPub);
                                ("_hdkey_object", VPub); ("address_index", VNone); ("depth", VNone)]
            end);
-     kcomp := true; kpriv := match w with WkPrivate _ => true | _ => false end; khd := false |}.
+     kcomp := true; kpriv := match w with WkPrivate _ => true | _ => false end; khd := false; kwc := None |}.
 
 Inductive wop := WKey | WPublic | WAsDict (incl : bool) | WRepr | WBalance | WName.
 
@@ -567,3 +581,338 @@ Fixpoint keeps_clean (tbl : list (string * fclass)) (p : prog) : bool :=
       && ((match c with CBlank a => is_private tbl a | _ => false end) || keeps_clean tbl el)
       && keeps_clean tbl r
   end.
+
+(* ================================================================== Wallet level ====================
+   CONFIGURATIONS (how the wallet was created: the depth and the privacy of its main key), HISTORIES on the
+   wallet and its cached key objects, and the VIEWS Wallet.public_master() / Wallet.wif() / as_dict ...
+
+   public_master() and wif() are NOT written by hand: [pm_results] / [wif_exports] interpret the path tables in
+   the shape the translator regenerates from the source (every path through the method body that ends in a
+   return: tests with their polarity, then the statements); Glue/FieldsGlue.v proves the tables used here equal
+   the regenerated ones.  A test or a statement list the model does not know is read fail-closed: an unknown
+   test may hold either way, an unknown body returns the wallet's main key as it is. *)
+Inductive wconf :=
+| WcMaster        (* bip32 wallet created from a private depth-0 master key (or passphrase) *)
+| WcAcctPriv      (* bip32 wallet created from a PRIVATE account-level key: main key depth = depth_public_master *)
+| WcAcctPub       (* bip32 wallet created from a public account-level key (watch-only) *)
+| WcSinglePriv    (* single-key wallet, private key *)
+| WcSinglePub.    (* single-key wallet, public key *)
+
+Definition conf_single (c : wconf) : bool := match c with WcSinglePriv | WcSinglePub => true | _ => false end.
+Definition conf_at_account (c : wconf) : bool := match c with WcAcctPriv | WcAcctPub => true | _ => false end.
+Definition conf_private (c : wconf) : bool := match c with WcMaster | WcAcctPriv | WcSinglePriv => true | _ => false end.
+Definition conf_kind (c : wconf) (with_hdkey : bool) : wkind :=
+  if conf_private c then WkPrivate with_hdkey else WkPublic with_hdkey.
+
+(* one wallet that owns keys: a plain wallet, or one cosigner wallet of a multisig wallet ([sw_cos]).
+   sw_main: attribute contents of wallet.main_key (the cached object: Wallet.key(id) hands out the same object)
+   sw_acct: attribute contents of the cached account-level WalletKey which key_for_path([], depth_public_master)
+            returns when the main key is a depth-0 master key (derived from it, therefore private) *)
+Record swallet := { sw_conf : wconf; sw_cos : bool; sw_main : kobj; sw_acct : kobj }.
+
+Definition acct_init (cos with_hdkey : bool) : kobj :=
+  let k := wk_init (WkPrivate with_hdkey) in if cos then setf k "cosigner_id" VPub else k.
+Definition sw_init (cos : bool) (c : wconf) : swallet :=
+  {| sw_conf := c; sw_cos := cos; sw_main := wk_init (conf_kind c true); sw_acct := acct_init cos true |}.
+(* closing and opening the wallet again: every cached object is dropped, the rows are read again *)
+Definition sw_reopen (s : swallet) : swallet :=
+  {| sw_conf := sw_conf s; sw_cos := sw_cos s; sw_main := wk_init (conf_kind (sw_conf s) false);
+     sw_acct := acct_init (sw_cos s) false |}.
+Definition src_is_main (s : swallet) : bool := conf_single (sw_conf s) || conf_at_account (sw_conf s).
+(* the WalletKey key_for_path([], depth_public_master) returns *)
+Definition sw_source (s : swallet) : kobj := if src_is_main s then sw_main s else sw_acct s.
+Definition set_main (s : swallet) (k : kobj) : swallet :=
+  {| sw_conf := sw_conf s; sw_cos := sw_cos s; sw_main := k; sw_acct := sw_acct s |}.
+Definition set_acct (s : swallet) (k : kobj) : swallet :=
+  {| sw_conf := sw_conf s; sw_cos := sw_cos s; sw_main := sw_main s; sw_acct := k |}.
+
+Inductive wallet := WSimple (s : swallet) | WMulti (cos : list swallet).
+Inductive walconf := CSimple (c : wconf) | CMulti (cs : list wconf).
+Definition wal_init (c : walconf) : wallet :=
+  match c with CSimple c => WSimple (sw_init false c) | CMulti cs => WMulti (map (sw_init true) cs) end.
+
+(* operations of a history *)
+Inductive wlop :=
+| LMainKey                 (* wallet.main_key.key() and the private exports of the nested key *)
+| LSrcKey                  (* wallet.public_master(as_private=True).key() *)
+| LMainPublic              (* wallet.main_key.public() *)
+| LPm (as_private : bool)  (* wallet.public_master(as_private=...) *)
+| LPmKey                   (* wallet.public_master().key() *)
+| LWif (is_private : bool) (* wallet.wif(is_private=...) *)
+| LAsDict (incl : bool)    (* wallet.as_dict / as_json (include_private=...) *)
+| LInfo | LRepr
+| LOther                   (* get_key / new_key / new_account / import_key / keys() / signing a transaction: the cached
+                              main and account key objects may be parsed again (made definite: they are) *)
+| LReopen.
+Inductive walop := WTop (o : wlop) | WCos (i : nat) (o : wlop).
+
+Definition sw_step (o : wlop) (s : swallet) : swallet :=
+  match o with
+  | LMainKey => set_main s (fst (exec p_wk_key (sw_main s)))
+  | LSrcKey => if src_is_main s then set_main s (fst (exec p_wk_key (sw_main s)))
+               else set_acct s (fst (exec p_wk_key (sw_acct s)))
+  | LOther => {| sw_conf := sw_conf s; sw_cos := sw_cos s; sw_main := fst (exec p_wk_key (sw_main s));
+                 sw_acct := if src_is_main s then sw_acct s else fst (exec p_wk_key (sw_acct s)) |}
+  | LReopen => sw_reopen s
+  | _ => s
+  end.
+Fixpoint map_nth {A} (i : nat) (f : A -> A) (l : list A) : list A :=
+  match l, i with
+  | [], _ => []
+  | x :: r, O => f x :: r
+  | x :: r, S j => x :: map_nth j f r
+  end.
+Definition multi_step (o : wlop) (cos : list swallet) : list swallet :=
+  match o with
+  | LSrcKey => map (sw_step LSrcKey) cos
+  | LOther => map (sw_step LOther) cos
+  | LReopen => map (sw_step LReopen) cos
+  | _ => cos
+  end.
+Definition wal_step (o : walop) (w : wallet) : wallet :=
+  match w with
+  | WSimple s => match o with WTop o => WSimple (sw_step o s) | WCos _ _ => w end
+  | WMulti cos => match o with WTop o => WMulti (multi_step o cos) | WCos i o => WMulti (map_nth i (sw_step o) cos) end
+  end.
+Fixpoint wal_run (h : list walop) (w : wallet) : wallet :=
+  match h with [] => w | o :: r => wal_run r (wal_step o w) end.
+
+(* ---- the path tables (strings as regenerated) *)
+Definition g_single := "self.main_key and self.main_key.key_type == 'single'".
+Definition g_nocos := "not self.cosigner".
+Definition g_plain := "not self.multisig or not self.cosigner".
+Definition g_priv_main := "is_private and self.main_key".
+Definition ret_view := "return key if as_private else key.public()".
+
+Definition pm_body_main : list string := [ "key = self.main_key"; ret_view ].
+Definition pm_body_path : list string :=
+  [ "witness_type = witness_type if witness_type else self.witness_type";
+    "depth = -self.key_depth + self.depth_public_master";
+    "key = self.key_for_path([], depth, name=name, account_id=account_id, network=network, cosigner_id=self.cosigner_id, witness_type=witness_type)";
+    ret_view ].
+Definition pm_body_cos : list string :=
+  [ "pm_list = []";
+    "for cs in self.cosigner: pm_list.append(cs.public_master(account_id, name, as_private, network))";
+    "return pm_list" ].
+Definition wallet_public_master_paths : list (list (string * bool) * list string) :=
+  [ ([(g_single, true)], pm_body_main);
+    ([(g_single, false); (g_nocos, true)], pm_body_path);
+    ([(g_single, false); (g_nocos, false)], pm_body_cos) ].
+
+Definition wif_body_main : list string := [ "return self.main_key.wif" ].
+Definition wif_body_pm : list string :=
+  [ "return self.public_master(account_id=account_id).key().wif(is_private=is_private, witness_type=self.witness_type, multisig=self.multisig)" ].
+Definition wif_body_cos : list string :=
+  [ "wiflist = []"; "for cs in self.cosigner: wiflist.append(cs.wif(is_private=is_private))"; "return wiflist" ].
+Definition wallet_wif_paths : list (list (string * bool) * list string) :=
+  [ ([(g_plain, true); (g_priv_main, true)], wif_body_main);
+    ([(g_plain, true); (g_priv_main, false)], wif_body_pm);
+    ([(g_plain, false)], wif_body_cos) ].
+
+(* frozen copies of further method bodies / signatures the views depend on (compared by Glue only) *)
+Definition hdkey_pm_common : list string :=
+  [ "if multisig: self.multisig = multisig";
+    "if witness_type: self.witness_type = witness_type";
+    "path_template, purpose, _ = get_key_structure_data(self.witness_type, self.multisig, purpose)";
+    "pm_depth = path_template.index([x for x in path_template if x[-1:] == ""'""][-1]) + 1";
+    "path = path_expand(path_template[:pm_depth], path_template, account_id=account_id, purpose=purpose, witness_type=self.witness_type, network=self.network.name)" ].
+Definition hdkey_public_master_paths : list (list (string * bool) * list string) :=
+  [ ([("as_private", true)], (hdkey_pm_common ++ [ "return self.subkey_for_path(path)" ])%list);
+    ([("as_private", false)], (hdkey_pm_common ++ [ "return self.subkey_for_path(path).public()" ])%list) ].
+Definition walletkey_key_paths : list (list (string * bool) * list string) :=
+  [ ([],
+     [ "self._hdkey_object = None";
+       "if self.key_type == 'multisig': self._hdkey_object = [] for kc in self._dbkey.multisig_children: self._hdkey_object.append(HDKey.from_wif(kc.child_key.wif, network=kc.child_key.network_name, compressed=self.compressed))";
+       "if self._hdkey_object is None and self.wif: self._hdkey_object = HDKey.from_wif(self.wif, network=self.network_name, compressed=self.compressed)";
+       "return self._hdkey_object" ]) ].
+Definition as_json_paths : list (list (string * bool) * list string) :=
+  [ ([], [ "return json.dumps(self.as_dict(include_private=include_private), indent=4)" ]);
+    ([], [ "return json.dumps(self.as_dict(include_private=include_private), indent=4)" ]);
+    ([], [ "adict = self.as_dict(include_private=include_private)"; "return json.dumps(adict, indent=4, default=str)" ]) ].
+(* every export / view entry point leaves the private material out BY DEFAULT *)
+Definition export_signatures : list (string * string) :=
+  [ ("Key.public", "self");
+    ("Key.as_dict", "self, include_private=False");
+    ("Key.as_json", "self, include_private=False");
+    ("Key.wif", "self, prefix=None");
+    ("Key.info", "self");
+    ("HDKey.public", "self");
+    ("HDKey.as_dict", "self, include_private=False");
+    ("HDKey.as_json", "self, include_private=False");
+    ("HDKey.wif", "self, is_private=None, child_index=None, prefix=None, witness_type=None, multisig=None");
+    ("HDKey.wif_public", "self, prefix=None, witness_type=None, multisig=None");
+    ("HDKey.info", "self");
+    ("HDKey.public_master", "self, account_id=0, purpose=None, multisig=None, witness_type=None, as_private=False");
+    ("HDKey.public_master_multisig", "self, account_id=0, purpose=None, witness_type=None, as_private=False");
+    ("Address.as_dict", "self");
+    ("Address.as_json", "self");
+    ("WalletKey.public", "self");
+    ("WalletKey.as_dict", "self, include_private=False");
+    ("WalletKey.key", "self");
+    ("Wallet.public_master", "self, account_id=None, name=None, as_private=False, witness_type=None, network=None");
+    ("Wallet.wif", "self, is_private=False, account_id=0");
+    ("Wallet.as_dict", "self, include_private=False");
+    ("Wallet.as_json", "self, include_private=False");
+    ("Wallet.info", "self, detail=3");
+    ("Wallet.keys", "self, account_id=None, name=None, key_id=None, change=None, depth=None, used=None, is_private=None, has_balance=None, is_active=None, witness_type=None, network=None, include_private=False, as_dict=False");
+    ("Wallet.account", "self, account_id") ].
+
+(* ---- interpretation of the path tables *)
+Fixpoint strs_eqb (a b : list string) : bool :=
+  match a, b with
+  | [], [] => true
+  | x :: r, y :: q => String.eqb x y && strs_eqb r q
+  | _, _ => false
+  end.
+
+(* what a test can see of the wallet the method is called on *)
+Record wctx := { cx_single : bool; cx_parent : bool; cx_main : bool }.
+Definition ctx_simple (s : swallet) : wctx :=
+  {| cx_single := conf_single (sw_conf s); cx_parent := false; cx_main := true |}.
+Definition ctx_parent : wctx := {| cx_single := false; cx_parent := true; cx_main := false |}.
+
+Inductive tri := TT | TF | TU.
+Definition tri_of (b : bool) : tri := if b then TT else TF.
+Definition guard_val (cx : wctx) (arg : bool) (g : string) : tri :=
+  if String.eqb g g_single then tri_of (cx_main cx && cx_single cx)
+  else if String.eqb g g_nocos then tri_of (negb (cx_parent cx))
+  else if String.eqb g g_plain then tri_of (negb (cx_parent cx))
+  else if String.eqb g g_priv_main then tri_of (arg && cx_main cx)
+  else TU.
+Definition may_hold (cx : wctx) (arg : bool) (gs : list (string * bool)) : bool :=
+  forallb (fun gb => match guard_val cx arg (fst gb) with TU => true | TT => snd gb | TF => negb (snd gb) end) gs.
+
+Inductive pm_sem := PmMain | PmPath | PmCos | PmRaw.
+Definition pm_body_sem (b : list string) : pm_sem :=
+  if strs_eqb b pm_body_main then PmMain
+  else if strs_eqb b pm_body_path then PmPath
+  else if strs_eqb b pm_body_cos then PmCos
+  else PmRaw.
+
+(* `key if as_private else key.public()` *)
+Definition view (as_private : bool) (k : kobj) : kobj := if as_private then k else fst (wstep WPublic k).
+
+Definition pm_simple (tbl : list (list (string * bool) * list string)) (s : swallet) (ap : bool) : list kobj :=
+  flat_map (fun p =>
+    if may_hold (ctx_simple s) ap (fst p) then
+      match pm_body_sem (snd p) with
+      | PmMain => [view ap (sw_main s)]
+      | PmPath => [view ap (sw_source s)]
+      | PmCos => []                        (* a wallet that owns keys has no cosigner wallets *)
+      | PmRaw => [sw_main s]
+      end
+    else []) tbl.
+Definition pm_results (tbl : list (list (string * bool) * list string)) (w : wallet) (ap : bool) : list kobj :=
+  match w with
+  | WSimple s => pm_simple tbl s ap
+  | WMulti cos =>
+      flat_map (fun p =>
+        if may_hold ctx_parent ap (fst p) then
+          match pm_body_sem (snd p) with
+          | PmCos => flat_map (fun s => pm_simple tbl s ap) cos
+          | PmMain | PmPath => []          (* no main key: the real call raises *)
+          | PmRaw => map sw_main cos
+          end
+        else []) tbl
+  end.
+Definition wallet_public_master (w : wallet) (as_private : bool) : list kobj :=
+  pm_results wallet_public_master_paths w as_private.
+
+Inductive wif_sem := WfMain | WfPm | WfCos | WfRaw.
+Definition wif_body_sem (b : list string) : wif_sem :=
+  if strs_eqb b wif_body_main then WfMain
+  else if strs_eqb b wif_body_pm then WfPm
+  else if strs_eqb b wif_body_cos then WfCos
+  else WfRaw.
+(* public_master(...).key().wif(is_private=ip): the parse happens on the returned WalletKey; the public
+   serialisation of a key is one-way, the private one carries whatever the parsed key carries *)
+Definition wif_of_view (ip : bool) (v : kobj) : string * fval :=
+  let v' := fst (exec p_wk_key v) in
+  ("wif", eval (if ip then EFrom ["_hdkey_object"] else EDeclass ["_hdkey_object"]) v').
+Definition wif_simple (pmt wft : list (list (string * bool) * list string)) (s : swallet) (ip : bool)
+  : list (string * fval) :=
+  flat_map (fun p =>
+    if may_hold (ctx_simple s) ip (fst p) then
+      match wif_body_sem (snd p) with
+      | WfMain | WfRaw => [("wif", eval (EFrom ["wif"]) (sw_main s))]
+      | WfPm => map (wif_of_view ip) (pm_simple pmt s false)
+      | WfCos => []
+      end
+    else []) wft.
+Definition wif_exports (pmt wft : list (list (string * bool) * list string)) (w : wallet) (ip : bool)
+  : list (string * fval) :=
+  match w with
+  | WSimple s => wif_simple pmt wft s ip
+  | WMulti cos =>
+      flat_map (fun p =>
+        if may_hold ctx_parent ip (fst p) then
+          match wif_body_sem (snd p) with
+          | WfCos => flat_map (fun s => wif_simple pmt wft s ip) cos
+          | WfPm => map (wif_of_view ip) (pm_results pmt w false)
+          | WfMain | WfRaw => map (fun s => ("wif", eval (EFrom ["wif"]) (sw_main s))) cos
+          end
+        else []) wft
+  end.
+
+(* ---- what each operation returns / prints *)
+(* the key rows of Wallet.as_dict: the columns that survive the private_fields filter, read from the rows of a
+   wallet whose keys are private; a multisig parent wallet only holds references ('multisig-<address>') *)
+Definition rows_value (private_rows : bool) (col : string) : fval :=
+  if mem col private_write_columns && private_rows then VSec else VPub.
+Definition as_dict_exports (incl private_rows : bool) : list (string * fval) :=
+  map (fun c => (c, rows_value private_rows c)) (row_dict_columns incl ["address"; "path"; "private"; "public"; "wif"]).
+
+Definition key_of_view (v : kobj) : string * fval := ("key", eval (EFrom ["_hdkey_object"]) (fst (exec p_wk_key v))).
+Definition sw_exports (o : wlop) (s : swallet) : list (string * fval) :=
+  let s' := sw_step o s in
+  match o with
+  | LMainKey => [("key", eval (EFrom ["_hdkey_object"]) (sw_main s'))]
+  | LSrcKey => [("key", eval (EFrom ["_hdkey_object"]) (sw_source s'))]
+  | LPmKey => map key_of_view (pm_simple wallet_public_master_paths s' false)
+  | LWif ip => wif_simple wallet_public_master_paths wallet_wif_paths s' ip
+  | LAsDict incl => as_dict_exports incl (conf_private (sw_conf s'))
+  | LInfo | LRepr => [("name", VPub)]
+  | LMainPublic | LPm _ | LOther | LReopen => []
+  end.
+Definition multi_exports (o : wlop) (cos : list swallet) : list (string * fval) :=
+  match o with
+  | LSrcKey => flat_map (sw_exports LSrcKey) cos
+  | LPmKey => map key_of_view (wallet_public_master (WMulti cos) false)
+  | LWif ip => wif_exports wallet_public_master_paths wallet_wif_paths (WMulti cos) ip
+  | LAsDict incl => as_dict_exports incl false
+  | LInfo | LRepr => [("name", VPub)]
+  | _ => []
+  end.
+Definition wal_exports (o : walop) (w : wallet) : list (string * fval) :=
+  match w with
+  | WSimple s => match o with WTop o => sw_exports o s | WCos _ _ => [] end
+  | WMulti cos =>
+      match o with
+      | WTop o => multi_exports o (multi_step o cos)
+      | WCos i o => match nth_error cos i with Some s => sw_exports o s | None => [] end
+      end
+  end.
+(* the WalletKey objects an operation hands out *)
+Definition sw_returns (o : wlop) (s : swallet) : list kobj :=
+  match o with
+  | LPm ap => wallet_public_master (WSimple (sw_step o s)) ap
+  | LMainPublic => [view false (sw_main (sw_step o s))]
+  | _ => []
+  end.
+Definition wal_returns (o : walop) (w : wallet) : list kobj :=
+  match w with
+  | WSimple s => match o with WTop o => sw_returns o s | WCos _ _ => [] end
+  | WMulti cos =>
+      match o with
+      | WTop (LPm ap) => wallet_public_master w ap
+      | WTop _ => []
+      | WCos i o => match nth_error cos i with Some s => sw_returns o s | None => [] end
+      end
+  end.
+Definition returns_a_view (o : wlop) : bool := match o with LPm false | LMainPublic => true | _ => false end.
+Definition lop_of (o : walop) : wlop := match o with WTop o | WCos _ o => o end.
+(* operations whose result is presented as public *)
+Definition wal_default_export (o : wlop) : bool :=
+  match o with LPmKey | LWif false | LAsDict false | LInfo | LRepr => true | _ => false end.
+Definition wal_mains (w : wallet) : list kobj :=
+  match w with WSimple s => [sw_main s] | WMulti cos => map sw_main cos end.
